@@ -509,3 +509,29 @@ Arguments s_cells {T surf}. Arguments s_surfs {T surf}. Arguments s_nck {T surf}
 Arguments s_nsk {T surf}. Arguments s_cache {T surf}. Arguments s_rcache {T surf}.
 Arguments by_universe {T}.
 Arguments fill_keys {T}.
+
+(* ---- ParseMCNPCell.parse_fill_kw / parse_trcl_kw: which transformation a keyword yields --------
+   The numbers are abstract tokens (Z codes chosen by the harness, 0 = 0.0 and 1 = 1.0);
+   [trid] = int(params[0]) is used only when there is exactly one number; [table] = the TR cards.
+   Three numbers are a translation completed with the identity matrix, also for the starred
+   keywords and also when the three numbers are 0 (the result is the 12-entry identity, not the
+   empty tuple); a FILL / *FILL keyword without any number yields () (pot_fill then falls back
+   to the TRCL; /repo c2e06ed), while a starred TRCL without any number still goes through
+   normalize_transform([]) and yields the identity (harmless there); more numbers go through to_cos / normalize_transform (numeric layer: C04/C17),
+   which is opaque here. *)
+Inductive trshape := TSList (l : list Z) | TSNorm.
+
+Definition identity12 : list Z := [0; 0; 0; 1; 0; 0; 0; 1; 0; 0; 0; 1].
+
+Definition parse_tr_params (is_fill star : bool) (trid : Z) (params : list Z)
+           (table : list (Z * list Z)) : res trshape :=
+  match params with
+  | [] => if star && negb is_fill then Ok (TSList identity12)   (* normalize_transform([]) *)
+          else Ok (TSList [])
+  | [_] => match dget trid table with
+           | None => Err EKey
+           | Some l => Ok (TSList (firstn 12 l))
+           end
+  | [a; b; c] => Ok (TSList [a; b; c; 1; 0; 0; 0; 1; 0; 0; 0; 1])
+  | _ => Ok TSNorm
+  end.
